@@ -35,6 +35,7 @@ SEED_PARAMS = ('seed',)
 RNG_PARAMS = ('np_rng', 'rng')
 DRAWINT_METHODS = {'randint', 'integers', 'randrange', 'getrandbits'}
 NP_RANDOM_CONSTRUCTORS = {'default_rng', 'RandomState', 'Generator'}
+NP_BIT_GENERATORS = ('PCG64', 'PCG64DXSM', 'MT19937', 'Philox', 'SFC64')
 NP_RANDOM_INERT = {'SeedSequence', 'PCG64', 'MT19937', 'Philox', 'SFC64', 'BitGenerator', 'PCG64DXSM'}
 PY_RANDOM_CONSTRUCTORS = {'Random'}
 # torch functions that consume the global torch generator
@@ -531,7 +532,11 @@ class Ctx:
             self.closure_locals = set()  # locals holding the result of an unseeded numqi function (its body, incl. returned closures, is already accounted)
             self.seed_name = None
             self.seed_expr = {'cur': ('param',)}
+            self.seedvals = {}         # local name -> seed expression: `s = rng.randint(…)` at the top level of the body, used later as `seed=s`
+            self.depth = 0
         else:
+            self.depth = parent.depth + 1
+            self.seedvals = parent.seedvals
             for k in ('vars', 'counter', 'closures', 'kwdicts', 'params', 'local_names', 'local_defs', 'aliases', 'partials', 'instances',
                       'strlists', 'closure_locals', 'seed_name', 'seed_expr'):
                 setattr(self, k, getattr(parent, k))
@@ -672,6 +677,8 @@ class Ctx:
                 return self.seed_expr['cur']
             if nm in self.vars:
                 return ('var', self.vars[nm])
+            if nm in self.seedvals:
+                return self.seedvals[nm]
             return ('unknown',)
         if isinstance(node, ast.Call) and isinstance(node.func, ast.Attribute):
             base = self.name_of(node.func.value)
@@ -679,6 +686,18 @@ class Ctx:
                 return ('drawInt', self.vars[base])
         if isinstance(node, ast.Call) and isinstance(node.func, ast.Name) and node.func.id == 'int' and len(node.args) == 1 and 'int' not in self.local_names:
             return self.seedexpr(node.args[0])
+        # `np.random.PCG64(seedexpr)` (and the other numpy bit generators) handed to `np.random.Generator`: the stream is a function of
+        # the seed expression exactly as for `default_rng(seedexpr)`; no argument / None = fresh entropy
+        if isinstance(node, ast.Call):
+            chain = chain_of(node.func)
+            obj = self.resolve(chain) if chain is not None else None
+            if obj is not None and any(obj is getattr(self.tr.np.random, nm, None) for nm in NP_BIT_GENERATORS):
+                if any(isinstance(a, ast.Starred) for a in node.args) or len(node.args) > 1 or any(k.arg != 'seed' for k in node.keywords) or (node.args and node.keywords):
+                    return ('unknown',)
+                arg = node.args[0] if node.args else (node.keywords[0].value if node.keywords else None)
+                if arg is None or (isinstance(arg, ast.Constant) and arg.value is None):
+                    return ('none',)
+                return self.seedexpr(arg)
         return ('unknown',)
 
     # -- statements
@@ -800,6 +819,7 @@ class Ctx:
             for d in (self.aliases, self.partials, self.instances, self.closures, self.strlists):
                 d.pop(nm, None)
             self.kwdicts.pop(nm, None)
+            self.seedvals.pop(nm, None)
             self.local_defs.discard(nm)
             self.closure_locals.discard(nm)
 
@@ -847,12 +867,20 @@ class Ctx:
         if isinstance(value, ast.Call):
             kind = self.normaliser_kind(value)
             if kind is not None:
-                for a in value.args[1:]:
-                    self.expr(a)
-                src = ('none',) if self.arg_is_none_or_missing(value) else self.seedexpr_evaluating(self.first_arg(value))
+                src = self.normaliser_src(value)
                 self.bind_target(targets[0])
                 v = self.new_var(tname)
                 self.emit(('mkRng', v, src))
+                return
+        # an integer drawn from a tracked generator and kept in a local (`child = rng.randint(0, M)` … `f(seed=child)`): only for a plain
+        # local name bound at the top level of the body (a binding inside a branch / loop is not tracked: fail-safe); any rebinding forgets it
+        if isinstance(value, ast.Call) and isinstance(targets[0], ast.Name) and self.depth == 0:
+            e = self.seedexpr(value)
+            if e[0] == 'drawInt':
+                self.expr(value)                 # the draw itself (and its arguments)
+                self.bind_target(targets[0])
+                if self.vars.get(self.name_of(value.func.value)) == e[1]:     # the generator is still tracked after evaluating the arguments
+                    self.seedvals[tname] = e
                 return
         nm = self.name_of(value)
         # alias of a generator
@@ -951,20 +979,61 @@ class Ctx:
         return None
 
     @staticmethod
-    def first_arg(call):
-        if call.args:
-            return call.args[0]
-        return call.keywords[0].value
+    def first_param_name(obj):
+        """name of the first positional parameter of a normaliser / generator constructor (None if it cannot be determined)"""
+        try:
+            ps = [p for p in inspect.signature(obj).parameters.values() if p.kind in (p.POSITIONAL_ONLY, p.POSITIONAL_OR_KEYWORD)]
+            return ps[0].name if ps else None
+        except (TypeError, ValueError):
+            return None
 
-    @staticmethod
-    def arg_is_none_or_missing(call):
-        if not call.args and not call.keywords:
-            return True
-        if call.args and isinstance(call.args[0], ast.Constant) and call.args[0].value is None:
-            return True
-        return False
+    def seed_arg(self, call, obj=None):
+        """the node bound to the first parameter (the seed / bit generator) of a normaliser or constructor call: the first positional
+        argument, or the keyword with the first parameter's name (other keywords with defaults are only evaluated); None if absent"""
+        if call.args:
+            return None if isinstance(call.args[0], ast.Starred) else call.args[0]
+        if obj is None:
+            chain = chain_of(call.func)
+            obj = self.resolve(chain) if chain is not None else None
+        nm = self.first_param_name(obj) if obj is not None else None
+        known = {nm} if nm else set()
+        known |= {'seed', 'rng_or_seed', 'x', 'bit_generator'} if nm is None else set()
+        for k in call.keywords:
+            if k.arg is not None and k.arg in known:
+                return k.value
+        return None
+
+    def first_arg(self, call, obj=None):
+        a = self.seed_arg(call, obj)
+        if a is not None:
+            return a
+        return call.args[0] if call.args else (call.keywords[0].value if call.keywords else None)
+
+    def arg_is_none_or_missing(self, call, obj=None):
+        if any(isinstance(a, ast.Starred) for a in call.args) or any(k.arg is None for k in call.keywords):
+            return False                      # `*args` / `**kwargs`: cannot tell; the caller treats the seed expression as unknown
+        a = self.seed_arg(call, obj)
+        if a is None:
+            return not call.args              # the seed parameter is not passed at all (only pass-through keywords, if any)
+        return isinstance(a, ast.Constant) and a.value is None
+
+    def normaliser_src(self, call, eval_rest=True):
+        """seed expression of a normaliser / constructor call; the other arguments (pass-through keywords …) are evaluated for their effects"""
+        if self.arg_is_none_or_missing(call):
+            src, a = ('none',), self.seed_arg(call)
+        else:
+            a = self.seed_arg(call)
+            if a is None:                       # `*args` / `**kwargs` / not determinable
+                src = ('unknown',)
+            else:
+                src = self.seedexpr_evaluating(a)
+        if eval_rest:
+            self.eval_args(call, skip={id(a)} if a is not None else ())
+        return src
 
     def seedexpr_evaluating(self, node):
+        if node is None or isinstance(node, ast.Starred):
+            return ('unknown',)
         e = self.seedexpr(node)
         if e[0] == 'unknown':
             self.expr(node)
@@ -1124,8 +1193,7 @@ class Ctx:
         tr = self.tr
         rargs = self.rng_args(node)
         if id(obj) in tr.normalisers or tr.module_class(obj) == 'ctor':
-            self.eval_args(node, skip={id(self.first_arg(node))} if (node.args or node.keywords) else ())
-            src = ('none',) if self.arg_is_none_or_missing(node) else self.seedexpr_evaluating(self.first_arg(node))
+            src = self.normaliser_src(node)
             v = self.new_var(None)
             self.emit(('mkRng', v, src))
             return
@@ -1273,7 +1341,7 @@ class Ctx:
             meth = func.attr
             if isinstance(func.value, ast.Call) and self.normaliser_kind(func.value) is not None:
                 inner = func.value
-                src = ('none',) if self.arg_is_none_or_missing(inner) else self.seedexpr_evaluating(self.first_arg(inner))
+                src = self.normaliser_src(inner)
                 v = self.new_var(None)
                 self.emit(('mkRng', v, src))
                 self.eval_args(node)
